@@ -11,19 +11,65 @@ TB = ('Trusted: Coq 8.16.1 kernel (no axioms: Print Assumptions must print "Clos
       'differential execution on every run), CPython io, SQLAlchemy/SQLite, zlib, hashlib, the kernel, rsync.')
 
 CLAIMS = {
-    'C16': dict(
-        technique='Coq proof of the merge/chunk/paging helpers (induction) + differential correspondence model<->code',
-        text=('PROOF (Coq, closed): Merge.dws is a line-by-line state-machine model of utils.detect_where_sorted (with left_key); proved for all '
-              'inputs: on sorted unique inputs it terminates with exactly merge_spec (C16_dws_spec), merge_spec is exactly set-membership '
-              'classification with the left element on BOTH and every key once in order (C16_merge_spec_in/_once), every unsorted or '
-              'non-unique input ends in ValueError (C16_dws_rejects), fuel never runs out (C16_dws_terminates); chunk_iterator '
-              '(C16_chunks) and the id>last_pk paging loop (C16_paging) lose/duplicate nothing for every n>=1; constants from the AST '
-              '(C16_constants). TIE: the extracted model and the implementation are run on all 4096 pairs of sorted subsets of a '
-              '6-universe, all short unsorted sides, random long pairs, and a second vm_compute route without extraction. '
-              'PARTIAL: the bulk-API half (has/meta/content/stream, pack_all_loose, clean_storage, import at both strategies and at '
-              'the real 950/9500/1000 thresholds and lowered ones) is decided by differential testing against a dict and the '
-              'single-key operations, not yet by a theorem over a Gallina lookup program.'),
-        design='4/C16'),
+    'C01': dict(
+        technique='Coq program-level round-trip theorem (loose paths) + invariant-based recovery theorem + size/path/config grid differential',
+        text=('PROOF (Coq, closed): C01_loose_roundtrip - for every world satisfying the C03 invariant, every content and EVERY chunking of the source '
+              'stream, the model program of add_object/add_streamed_object (Programs.p_add_loose, event semantics Store.apply_ev) ends in a state where '
+              'the library-free read of H(content) returns exactly the content; C01_packed_entries_read_back - every index entry (plain or compressed) '
+              'reads back as bytes with the key as digest and the recorded size; C01_packed_reader_returns_the_bytes (C07 simulation, any read program); '
+              'chunk constants from the AST are positive. TIE: event semantics validated against the real folder on the write-path traces; the grid '
+              '(13 sizes straddling 64 KiB/512 KiB/1 MiB x 4 content kinds x 10 write paths x hash x prefix 0-3 x zlib level x pack target) is executed '
+              'on the implementation against hashlib and the bytes, reads whole/chunked/bulk/stream+meta/raw. PARTIAL: the direct-to-pack and '
+              'pack_all_loose write programs are not proved end-to-end in Coq (covered by the verified monitor on their traces and the grid); the '
+              'hash is an injective Section variable, incremental hashing and zlib are assumptions validated by the grid.'),
+        design='4/C01'),
+    'C02': dict(
+        technique='Coq refinement lemmas (abstraction stored : key->bytes) + verified trace monitor + random histories vs dict',
+        text=('PROOF (Coq, closed): abstraction Store.stored; C02_views_are_the_map (library read path = abstraction under the invariant), '
+              'C02_add_loose_is_put (all inputs), C02_maintenance_is_invisible (along ANY monotone history - pack_all_loose, clean_storage, re-loosening '
+              '- every stored object stays stored with its bytes), C02_delete_rows, C02_reads_are_content_addressed. TIE: Store.apply_ev replayed over '
+              'the intercepted trace of 27 operation variants must end in exactly the folder read raw; the verified monitor accepts every event '
+              'boundary; 180+ random histories over 14 operation kinds and all option combinations are compared with a dict after EVERY step '
+              '(has/get/bulk/meta/list/count/NotExistent, raw reader, validate). PARTIAL: the full refinement theorem over arbitrary histories of '
+              'model programs (direct-to-pack, repack, import) is not proved; those are decided by differential testing plus the monitor.'),
+        design='4/C02'),
+    'C03': dict(
+        technique='Coq: invariant + sound boolean checker + verified trace monitor run on implementation traces; independent raw reader',
+        text=('PROOF (Coq, closed): Store.Inv is literally the property statement; C03_checker_sound (inv_b -> Inv), C03_every_boundary (monitor accepted '
+              '=> Inv at every event boundary of the trace), C03_manual_recovery (SQL query + slice + zlib returns bytes with the key digest and size), '
+              'C03_unique_keys (no key indexed twice whatever is inserted), C03_tolerates_unreferenced_tail. TIE: the extracted monitor runs on the '
+              'trace of every scenario with the model world initialised from the real folder and must end in the real folder; an independent '
+              'sqlite3+zlib reader checks every state after every step of 220 random histories. PARTIAL: Inv is proved inductive for the '
+              'add-loose program (all inputs, C05 file); for the other operations it is certified per observed trace by the verified monitor.'),
+        design='4/C03'),
+    'C04': dict(
+        technique='Coq rely/guarantee over monotone history (all interleavings) + forced interleavings of real Container calls',
+        text=('PROOF (Coq, closed): C04_actor_steps_are_monotone (every event of a loose writer / the packer, under its side conditions, is a Mono step), '
+              'C04_any_interleaving_is_monotone (induction over ANY schedule), C04_reader_finds_every_acknowledged_object (the reader protocol index '
+              'snapshot -> loose -> refreshed snapshot returns exactly the bytes of every object stored before its loose lookup, for arbitrary '
+              'monotone histories between its observations and an arbitrarily old pinned snapshot), C04_trace_checker_sound, MAX_RETRIES >= 2 from '
+              'the AST. TIE: the side-condition checker (extracted all_ok_b) accepts the real traces of 18 writer/packer scenarios; 120 (thorough 4000) '
+              'forced schedules of real threads (18 targeted: reader stopped between index lookup and loose open while the packer commits and '
+              'unlinks; rest random bursty) with single/bulk/meta/seeking readers. PARTIAL: the reader protocol is modelled at observation level '
+              '(Mono.lookup), not as an event program; GIL/kernel/SQLite isolation are modelled, not verified; threads stand for processes.'),
+        design='4/C04'),
+    'C05': dict(
+        technique='Coq verified crash monitor + program-level crash theorem (add loose) + kill at every gated I/O call',
+        text=('PROOF (Coq, closed): C05_monitor_sound (accepted trace => at EVERY crash point, buffers and open transaction dropped, Inv holds and every '
+              'non-target object is still stored), C05_add_loose_every_crash_point (ALL inputs, worlds, chunkings, crash points), '
+              'C05_new_handle_never_wrong_bytes, C05_any_spill. TIE: the monitor runs on the intercepted trace of each of 12 (thorough 28) operation '
+              'variants; the process is really killed (os._exit) before EVERY gated call and after the last one (229 / 460 kills), the folder is then '
+              'read raw and through a new handle. PARTIAL: crash-safety of pack/direct-to-pack/repack/import/delete programs is certified per '
+              'observed trace (all crash points of that trace) and by the exhaustive kill sweep, not by a program-level theorem.'),
+        design='4/C05'),
+    'C06': dict(
+        technique='Coq verified power-loss monitor + program-level theorem (add loose) + power-loss image at every kill point',
+        text=('PROOF (Coq, closed): C06_monitor_sound with the power_loss projection (every file falls back to its last fsync), '
+              'C06_add_loose_power_safe (ALL inputs and crash points), default fsync settings from the AST. TIE: fsync hook snapshots file content; '
+              'after each of ~220 kills (every gated call + after completion) the power-loss image is built and examined raw and through a new '
+              'handle; the power-loss monitor must accept every implementation trace with default settings (it rejects the do_fsync=False '
+              'variants, as it should). PARTIAL as C05; kernel/disk behaviour is the fault model of the property text, not verified.'),
+        design='4/C06'),
     'C07': dict(
         technique='Coq simulation proof (stream model vs in-memory file) + exhaustive small-program differential',
         text=('PROOF (Coq, closed): Streams.por_step is a transcription of utils.PackedObjectReader (shared pack handle, cached _pos, asserts); '
@@ -38,6 +84,101 @@ CLAIMS = {
               '(Streams.zsd_step) and is checked by correspondence, but its simulation theorem is not proved yet; zlib itself is an oracle '
               'whose laws are validated against the real module on every run.'),
         design='4/C07'),
+    'C08': dict(
+        technique='Coq: lookup theorem independent of the pinned snapshot + listing theorem (+ refuted stale variant) + multi-handle histories',
+        text=('PROOF (Coq, closed): C08_lookup_with_any_pinned_snapshot (no relation needed between the handle\'s snapshot and the world in which the '
+              'object was acknowledged), C08_listing_complete / C08_listing_once for the repaired list_all_objects (loose listed first, snapshot '
+              'refreshed afterwards), C08_stale_listing_refuted (witness of finding F4, fixed). TIE: 370 (thorough 6000) sequential histories over 2-4 '
+              'handles incl. 70 fixed ones placing a snapshot-pinning query before another handle packs and cleans; writer/packer traces pass the '
+              'Mono side-condition checker. PARTIAL: SQLAlchemy session behaviour is abstracted to "snapshot pinned at first statement until reset".'),
+        design='4/C08'),
+    'C09': dict(
+        technique='Coq lemmas on the UNIQUE index and loose map + no-op theorem for known loose content + repeat-biased histories',
+        text=('PROOF (Coq, closed): C09_one_index_entry_per_key, C09_existing_entries_untouched, C09_known_loose_content_is_a_noop (ALL inputs, every '
+              'prefix: loose/, packs/, index unchanged), C09_one_loose_file_per_key. TIE: 190 repeat-biased histories (within a batch, across batches, '
+              'across forms, damaged-loose injector) with, for no_holes, pack growth compared with newly referenced bytes; traces of the no_holes '
+              'variants pass the monitor and end in the real folder. PARTIAL: the no_holes byte-exactness statement is decided by differential '
+              'testing (it was the site of finding F3, fixed), not by a Coq theorem over a direct-to-pack program.'),
+        design='4/C09'),
+    'C10': dict(
+        technique='Coq lemmas (mode function, transparency, sizes) + mode-chain histories with per-row flag checks',
+        text=('PROOF (Coq, closed): C10_modes (YES/NO/KEEP as a function; AUTO is an oracle), C10_transparent, C10_plain_length_is_size, '
+              'C10_repack_keeps_keys, threshold constants from the AST. TIE: 130 mode-chain histories (pack/repack with NO/YES/KEEP/AUTO/bools, empty, '
+              'tiny, compressible, incompressible, 66-70 kB objects) checking per affected row the flag, size, stored length and the four totals '
+              'against the raw index/packs. PARTIAL: repack/pack programs are not modelled as Gallina programs; estimate_compression is not modelled.'),
+        design='4/C10'),
+    'C11': dict(
+        technique='Coq lemmas on DELETE / repack statements / unlink + delete-heavy histories with raw pack comparison',
+        text=('PROOF (Coq, closed): C11_delete_exactly_requested, C11_repack_keeps_keys_update/_repoint, C11_unlink_removes_only_that_key/_that_key. '
+              'TIE: 150 delete-heavy histories (loose, packed, both, stray duplicates), returned list vs set, packs byte-identical after delete, after '
+              'repack every pack = concatenation of live stored bytes and no empty/temporary pack; delete/repack traces replayed through the model '
+              'end in the real folder and pass the monitor at every boundary. PARTIAL: p_delete/p_repack are not proved as programs.'),
+        design='4/C11'),
+    'C12': dict(
+        technique='Coq soundness+completeness of the validation model w.r.t. the read path + exhaustive single-damage sweep',
+        text=('PROOF (Coq, closed): Validate.validate_b models validate() over the same slicing semantics as the read path; '
+              'C12_no_false_positive (Inv -> clean), C12_no_false_negative (for EVERY world: clean -> every visible key reads back with the key '
+              'digest and recorded size), C12_read_path_is_recovery. TIE: on a container with loose/plain/compressed objects every single-bit flip '
+              'and truncation of every referenced byte and every perturbation of offset/length/size/compressed/pack_id (1670 damages quick) is '
+              'applied; ground truth by reading through a new handle; validate after every step of 60 histories. PARTIAL: the model of validate '
+              'is hand-written and tied by the sweep, zlib is an oracle.'),
+        design='4/C12'),
+    'C13': dict(
+        technique='Coq step theorem (referenced bytes kept) + verified per-step trace checker + before/after pack comparison',
+        text=('PROOF (Coq, closed): C13_step_keeps_referenced_bytes (every accepted event, incl. the no_holes truncation at/above the last referenced '
+              'byte), C13_trace_checker_sound, C13_monotone_history_keeps_referenced_bytes. TIE: extracted c13_all_b accepts every step of 23 '
+              'repack-free implementation traces; 166 repack-free histories (targets 50/300/4GiB, reopened and parallel handles) compare every pack '
+              'before/after every step and check consecutive ids and "all but the last pack reached the target and are never written again". '
+              'PARTIAL: the layout half (pack numbering / fill order, _get_pack_id_to_write_to) is decided by differential testing only.'),
+        design='4/C13'),
+    'C14': dict(
+        technique='Coq: merge classification theorem (keys to transfer) + index lemmas + import-heavy histories',
+        text=('PROOF (Coq, closed): C14_keys_to_transfer (LEFTONLY of the sorted merge = requested keys the destination lacks, each once; built on the '
+              'C16 dws proofs), C14_no_second_entry, C14_destination_entries_untouched, C14_transferred_keys_indexed, content-addressing. TIE: 169 '
+              'import-heavy histories over both hash combinations, compress, target_memory_bytes 1..1e6 (all three cache branches), list/tuple/set/'
+              'one-shot generator, callback; source unchanged; import traces pass the monitor. PARTIAL: import_objects is not a Gallina program.'),
+        design='4/C14'),
+    'C15': dict(
+        technique='Coq backup completeness theorem over monotone history + real rsync behind a scheduling wrapper',
+        text=('PROOF (Coq, closed): C15_backup_complete (loose entries copied at their own instants, ONE atomic index dump, packs copied afterwards: '
+              'every object stored at the start reads back from the backup, whatever monotone steps happen in between), '
+              'C15_concurrent_steps_monotone, C15_excludes_cover_index_files (exclude list from the AST covers packs.idx, -wal, -shm). TIE: the real '
+              'backup_container with rsync 3.2.7; concurrent add/pack/pack+clean/clean/direct-to-pack placed before each of the 4 rsync calls and '
+              'in the middle of the loose/packs/rest transfers, a long-open client keeping the WAL alive, incremental backups; the backup is opened '
+              'as a Container, all objects read, validate, raw check (65 backups quick). PARTIAL: rsync and sqlite3 backup are modelled as '
+              'per-entry / atomic copies, not verified.'),
+        design='4/C15'),
+    'C16': dict(
+        technique='Coq proof of the merge/chunk/paging helpers (induction) + differential correspondence model<->code',
+        text=('PROOF (Coq, closed): Merge.dws is a line-by-line state-machine model of utils.detect_where_sorted (with left_key); proved for all '
+              'inputs: on sorted unique inputs it terminates with exactly merge_spec (C16_dws_spec), merge_spec is exactly set-membership '
+              'classification with the left element on BOTH and every key once in order (C16_merge_spec_in/_once), every unsorted or '
+              'non-unique input ends in ValueError (C16_dws_rejects), fuel never runs out (C16_dws_terminates); chunk_iterator '
+              '(C16_chunks) and the id>last_pk paging loop (C16_paging) lose/duplicate nothing for every n>=1; constants from the AST '
+              '(C16_constants). TIE: the extracted model and the implementation are run on all 4096 pairs of sorted subsets of a '
+              '6-universe, all short unsorted sides, random long pairs, and a second vm_compute route without extraction. '
+              'PARTIAL: the bulk-API half (has/meta/content/stream, pack_all_loose, clean_storage, import at both strategies and at '
+              'the real 950/9500/1000 thresholds and lowered ones) is decided by differential testing against a dict and the '
+              'single-key operations, not yet by a theorem over a Gallina lookup program.'),
+        design='4/C16'),
+    'C17': dict(
+        technique='Coq verified monitor on fault traces + single fault at every gated call with rerun',
+        text=('PROOF (Coq, closed): C17_fault_trace_monitor (a run with an injected fault is a trace too: accepted => Inv and preservation at every '
+              'boundary, in particular in the state the failed operation leaves), C17_no_wrong_bytes, C17_rollback_is_noop. TIE: OSError(EIO) / '
+              'OperationalError injected at EVERY gated call of 12 (thorough 28) operation variants (~230 injections quick); afterwards raw + new-handle '
+              'examination, stale locks removed, rerun must complete and end in the same key->bytes map as an uninterrupted run with clean '
+              'validation (repack excepted, as the property says). PARTIAL: handlers (finally blocks) are not modelled as programs; the '
+              'monitor is applied to uninterrupted traces, fault runs are judged by the direct oracles.'),
+        design='4/C17'),
+    'C18': dict(
+        technique='Coq descriptor-tracking theorem + balance/bound for the add-loose program + fd census, tracemalloc, trace write sizes',
+        text=('PROOF (Coq, closed): C18_handles_tracked (open write handles after ANY trace = opens minus closes), C18_add_loose_balanced and '
+              'C18_add_loose_bounded (every input, every prefix: at most one handle more, none left), chunk constants bounded. TIE/MEASURED: '
+              '/proc/self/fd census after every step of 60 histories and after close(), 60 rounds of pack operations with flat descriptor count, '
+              'at most pack+cache open during bulk reads with seeks on compressed objects, LazyOpener inputs open one at a time, largest single '
+              'write from the trace <= chunk bound, tracemalloc peak of 8 streaming paths at 4/16 MiB (thorough 16/64) flat and < 12 MiB. '
+              'PARTIAL: memory and read-side descriptors are measured, not proved; CPython finalisation and allocator are outside the model.'),
+        design='4/C18'),
 }
 
 NOT_YET = {}
